@@ -339,8 +339,8 @@ theorem segment_sigs (tbl : Tbl) (hwf : TableWF tbl) (p : Nat) (dflt : RSig)
 /-! ### charts that differ only in how they decline -/
 
 theorem SameUpToDecline.symm {c1 c2 : Chart} (h : SameUpToDecline c1 c2) : SameUpToDecline c2 c1 := by
-  obtain ⟨h1, h2, h3⟩ := h
-  refine ⟨?_, fun s => (h2 s).symm, h3.symm⟩
+  obtain ⟨h1, h2, h3, h4⟩ := h
+  refine ⟨?_, fun s => (h2 s).symm, h3.symm, fun s => (h4 s).symm⟩
   intro s n
   rcases h1 s n with h | ⟨ha, hb⟩ | ⟨ha, hb⟩
   · exact Or.inl h.symm
@@ -348,7 +348,7 @@ theorem SameUpToDecline.symm {c1 c2 : Chart} (h : SameUpToDecline c1 c2) : SameU
   · exact Or.inr (Or.inl ⟨hb, ha⟩)
 
 theorem SameUpToDecline.refl (c : Chart) : SameUpToDecline c c :=
-  ⟨fun _ _ => Or.inl rfl, fun _ => rfl, rfl⟩
+  ⟨fun _ _ => Or.inl rfl, fun _ => rfl, rfl, fun _ => rfl⟩
 
 theorem offers_congr {c1 c2 : Chart} (h : SameUpToDecline c1 c2) (n : Nat) :
     ∀ s, offers c1 n s = offers c2 n s := by
@@ -379,7 +379,7 @@ theorem WF_of_SameUpToDecline {c1 c2 : Chart} (h : SameUpToDecline c1 c2) (hwf :
   init_desc := by
     intro s t hi; rw [← h.2.1 s] at hi; exact hwf.init_desc s t hi
   init_depth := by
-    intro s t hi; rw [← h.2.1 s] at hi; rw [← h.2.2]; exact hwf.init_depth s t hi
+    intro s t hi; rw [← h.2.1 s] at hi; rw [← h.2.2.1]; exact hwf.init_depth s t hi
   tran_ne_top := by
     intro s n t hr
     rcases h.1 s n with he | ⟨_, hb⟩ | ⟨_, hb⟩
@@ -392,6 +392,8 @@ theorem WF_of_SameUpToDecline {c1 c2 : Chart} (h : SameUpToDecline c1 c2) (hwf :
     · rw [← he] at hr; exact hwf.no_none s n hr
     · rw [hb] at hr; cases hr
     · rw [hb] at hr; cases hr
+  no_fall := by
+    intro s; rw [← h.2.2.2 s]; exact hwf.no_fall s
 
 /-! ### the registry's tables -/
 
